@@ -496,6 +496,11 @@ pub struct DgramTamperCase {
     /// (packet id 2 instead of 1, other payload); 0 = use `mutation`
     #[serde(default)]
     pub splice_header: u8,
+    /// the valid datagrams come from the implementation's own encoder (client codec / server codec) instead of the
+    /// reference: whatever the implementation itself accepts as valid is the baseline, so a change that keeps encoder and
+    /// decoder consistent with each other but weakens what the tag covers cannot hide behind "baseline refused"
+    #[serde(default)]
+    pub impl_built: bool,
 }
 
 pub struct DgramTamper;
@@ -513,8 +518,8 @@ impl SubCheck for DgramTamper {
             2 => (any::<u16>(), proptest::collection::vec(any::<u8>(), 1..16)).prop_map(|(p, b)| Mutation::Edit(p, b)),
             1 => (any::<u16>(), proptest::collection::vec(any::<u8>(), 1..16)).prop_map(|(p, b)| Mutation::Insert(p, b)),
         ];
-        (proptest::sample::select(protos).prop_flat_map(gen::cred_for), gen::addr_strategy(), prop_oneof![0u32..64, 64u32..1500], any::<u64>(), any::<bool>(), mutation, proptest::bool::weighted(0.15), prop_oneof![5 => Just(0u8), 2 => proptest::sample::select(vec![8u8, 16, 24, 32, 40, 48])])
-            .prop_map(|(CredGen { cred, .. }, addr, len, seed, to_server, mutation, reflect, splice_header)| DgramTamperCase { cred, addr, len, seed, to_server, mutation, reflect, splice_header })
+        (proptest::sample::select(protos).prop_flat_map(gen::cred_for), gen::addr_strategy(), prop_oneof![0u32..64, 64u32..1500], any::<u64>(), any::<bool>(), mutation, proptest::bool::weighted(0.15), prop_oneof![5 => Just(0u8), 2 => proptest::sample::select(vec![8u8, 16, 24, 32, 40, 48])], proptest::bool::weighted(0.4))
+            .prop_map(|(CredGen { cred, .. }, addr, len, seed, to_server, mutation, reflect, splice_header, impl_built)| DgramTamperCase { cred, addr, len, seed, to_server, mutation, reflect, splice_header, impl_built })
             .boxed()
     }
     fn exec(&self, c: &DgramTamperCase) -> Outcome {
@@ -526,6 +531,9 @@ impl SubCheck for DgramTamper {
         let mut d = Det::new(c.seed, "dgt");
         let payload = gen::keystream(c.seed, 0, c.len as usize);
         let reflect = c.reflect && matches!(c.cred.proto, Proto::Ss22(_));
+        if c.impl_built && !reflect {
+            return exec_impl_built(c, out, &payload);
+        }
         // build a valid packet of the chosen direction with the reference
         let mut sibling: Option<Vec<u8>> = None;
         let wire: Vec<u8> = match c.cred.proto {
@@ -606,6 +614,97 @@ impl SubCheck for DgramTamper {
         }
         out
     }
+}
+
+/// dgram-tamper with datagrams made by the implementation's own encoders: the client codec sends two datagrams of one
+/// session, the server codec answers them under one server session. The victim is datagram 1 of the chosen direction; it
+/// is mutated, or its first bytes are replaced by those of datagram 2 (same session, same direction, still acceptable to
+/// any replay window), and fed to the receiving side. The untampered datagram 1 must be delivered (otherwise the case
+/// says nothing and is not counted), the tampered one must not.
+fn exec_impl_built(c: &DgramTamperCase, mut out: Outcome, payload: &[u8]) -> Outcome {
+    let fam = family(c.cred.proto);
+    out.label("built-by:implementation");
+    let Some(address) = to_address(&c.addr) else { return out };
+    let Ok(cctx) = real::ClientUdpCtx::new(&c.cred) else { return out };
+    let Ok(sudp) = real::server_udp(&c.cred) else { return out };
+    let mut cc = cctx.codec();
+    let other = gen::keystream(c.seed ^ 0x5157, 0, payload.len() + 3);
+    let enc_c = |cc: &mut Box<dyn real::ClientUdpDyn>, p: &[u8]| -> Option<Vec<u8>> {
+        let mut w = BytesMut::new();
+        match rt::catch(|| cc.encode(p, address.clone(), &mut w)) {
+            Ok(Ok(())) => Some(w.to_vec()),
+            _ => None,
+        }
+    };
+    let (Some(q1), Some(q2)) = (enc_c(&mut cc, payload), enc_c(&mut cc, &other)) else { return out };
+    // the server's view of the session (needed for replies, and the baseline of the client->server direction)
+    let sess = match rt::catch(|| sudp.decode(&mut BytesMut::from(&q1[..]))) {
+        Ok(Ok(Some((content, a, sess)))) if content == payload && a == address => sess,
+        _ => {
+            out.label("baseline-not-delivered");
+            return out;
+        }
+    };
+    let (wire, sib): (Vec<u8>, Vec<u8>) = if c.to_server {
+        (q1, q2)
+    } else {
+        let mut mk = |pid: u64, p: &[u8]| -> Option<Vec<u8>> {
+            let mut rs = sess.clone();
+            rs.server_sid = 0x7a00_0000_0000_0000 | (c.seed >> 8);
+            rs.pid = pid;
+            let mut w = BytesMut::new();
+            match rt::catch(|| sudp.encode(p, address.clone(), &rs, &mut w)) {
+                Ok(Ok(())) => Some(w.to_vec()),
+                _ => None,
+            }
+        };
+        let (Some(r1), Some(r2)) = (mk(1, payload), mk(2, &other)) else { return out };
+        (r1, r2)
+    };
+    let fake = Built { frames: refside::Frames { wire: wire.clone(), frame_ends: vec![], units: vec![], session: refside::SessionInfo::None, unauth: vec![], header_end: 0 }, payload: vec![], client: None };
+    let splice = c.splice_header > 0 && matches!(c.cred.proto, Proto::Ss22(_));
+    let m = if splice {
+        let n = (c.splice_header as usize).min(wire.len()).min(sib.len());
+        let mut w2 = sib[..n].to_vec();
+        w2.extend_from_slice(&wire[n..]);
+        let unchanged = w2 == wire;
+        Mutated { wire: w2, w: 0, neutral: false, kind: "header-splice", unchanged }
+    } else {
+        apply(&c.mutation, &fake)
+    };
+    out.label(format!("mutation:{}", m.kind));
+    if m.unchanged {
+        return out;
+    }
+    // tampered datagram first (fresh receiver state as far as replay filters go), then the untampered one as the baseline
+    let mut deliver = |w: &[u8]| -> Option<String> {
+        let mut src = BytesMut::from(w);
+        if c.to_server {
+            match rt::catch(|| sudp.decode(&mut src)) {
+                Ok(Ok(Some((content, a, _)))) => Some(format!("{} bytes for {:?}", content.len(), a)),
+                _ => None,
+            }
+        } else {
+            match rt::catch(|| cc.decode(&mut src)) {
+                Ok(Ok(Some((content, a)))) => Some(format!("{} bytes from {:?}", content.len(), a)),
+                _ => None,
+            }
+        }
+    };
+    let got = deliver(&m.wire);
+    if let Some(g) = got {
+        out.fail(
+            format!("dgram-tamper/{}/{}-delivers-tampered-datagram/implementation-built", fam, if c.to_server { "server" } else { "client" }),
+            format!("{} datagram made by the implementation's own encoder ({:?}, first changed offset {} of {}) was delivered: {}", m.kind, c.mutation, m.w, wire.len(), g),
+        );
+        return out;
+    }
+    if deliver(&wire).is_none() {
+        out.label("baseline-not-delivered");
+        return out;
+    }
+    out.nontrivial(format!("impl|{}|{}|{}|{}", c.cred.proto.short(), c.to_server, m.kind, (m.w * 8 / wire.len().max(1)).min(7)));
+    out
 }
 
 pub fn subs() -> Vec<Box<dyn DynSub>> {
